@@ -191,3 +191,55 @@ Fixpoint rref_tail (fuel : nat) (r : role) (s : list N) : list N :=
       end
   end.
 Definition rtu_tail (r : role) (s : list N) : list N := rref_tail (S (length s)) r s.
+
+(* ---------------- the RTU server across port re-opens ---------------- *)
+(* serial/server.rs: RtuServerTask keeps ONE SessionTask (one FramedReader) for the life of the
+   server. A port session runs until next_frame fails; the task then sleeps (retry delay) and
+   re-opens the port with the SAME reader. C06: "a received frame is acted on only if its CRC
+   verifies". The lifecycle this Spec prescribes:
+     * the bus is one byte stream; a framing error ends the current port session;
+     * every port session is cut ON ITS OWN FROM A CLEAN PARSER (the parser does not remember the
+       destination or length of the frame that failed);
+     * the receive buffer is NOT cleared on the server side (unlike the client, C05_client): bytes
+       already received stay in front of the next session. What exactly is in front of it:
+         - after a CRC failure the whole failed frame (address .. CRC) is gone;
+         - after an unknown function code or a frame that would be too long only the ADDRESS byte
+           is gone: the next session starts at the offending function-code byte;
+     * a port session that ends by an I/O error / EOF leaves an incomplete frame in place; the
+       bytes of the next session are appended to it (same bus). *)
+Definition rtu_body_after (k : list N -> list N) (addr : N) (plen : nat) (t : list N) : list N :=
+  if Nat.ltb 253 plen then t
+  else if Nat.ltb (length t) (plen + 2) then []
+  else if N.eqb (nth plen t 0 + 256 * nth (plen + 1) t 0)%N (crc (addr :: firstn plen t)) then k (skipn (plen + 2) t)
+  else skipn (plen + 2) t.
+(* the stream after the first framing error ([] if there is none) *)
+Fixpoint rref_after (fuel : nat) (r : role) (s : list N) : list N :=
+  match fuel with
+  | O => []
+  | S fuel =>
+      match s with
+      | addr :: fc :: rest =>
+          let t := fc :: rest in
+          match length_rule r fc with
+          | LUnknown => t
+          | LFixed n => rtu_body_after (rref_after fuel r) addr (1 + n) t
+          | LCount off =>
+              if Nat.ltb (length t) (1 + off) then []
+              else rtu_body_after (rref_after fuel r) addr (1 + off + N.to_nat (nth off t 0%N)) t
+          end
+      | _ => []
+      end
+  end.
+(* session after session: frames of a session, its framing error, then a clean start on what is left *)
+Fixpoint rref_reopen (fuel : nat) (F : nat) (r : role) (s : list N) (fi : fin) : list item * ending :=
+  match fuel with
+  | O => ([], EndOutOfFuel)
+  | S fuel =>
+      let '(fs, e) := rref F r s fi in
+      match e with
+      | EndBad err => let '(l, e') := rref_reopen fuel F r (rref_after F r s) fi in (map IFrame fs ++ IErr err :: l, e')
+      | _ => (map IFrame fs, e)
+      end
+  end.
+Definition ref_rtu_reopen (r : role) (s : list N) (fi : fin) : list item * ending :=
+  rref_reopen (S (length s)) (S (length s)) r s fi.
